@@ -53,7 +53,7 @@ def build(pid, conf):
     ensure_gosum()
     overlay = []
     if conf.get("overlay"):
-        ov = os.path.join(BUILD, "overlay")
+        ov = os.path.join(BUILD, "overlay-" + pid)
         r = sh(["go", "run", "./tools/mkoverlay", "-repo", REPO, "-out", ov], cwd=HARNESS,
                stdout=subprocess.PIPE, stderr=subprocess.STDOUT, text=True)
         if r.returncode != 0:
